@@ -31,6 +31,55 @@ Section Reg.
                (read_regfile fixed_req fixed_def sto linesize rs (S (S (length x))) x).
 End Reg.
 
+(* values inside the properties' domain: finite floats, dates with year >= 1000 *)
+Definition representable_value (v : value) : bool :=
+  match v with
+  | VFloat (S754_infinity _) => false
+  | VDate d => (1000 <=? dY d)%Z
+  | _ => true
+  end.
+
+(* do all values of the typed elements fit their fields? (the "representable" premise of C06) *)
+Definition elem_fits (sto : storage) (rs : list regdef) (e : elem) : bool :=
+  match e with
+  | ETyped i d =>
+      let fs := r_fields (nth_reg rs i) in
+      Nat.eqb (length fs) (length d) &&
+      forallb (fun fv => (match sto with Binary => fits_bin | Text => fits end)
+                           (match r_delim (nth_reg rs i), sto with Some _, Text => rebase (fst fv) | _, _ => fst fv end) (snd fv)
+                         && representable_value (snd fv))
+              (combine fs d)
+  | EDefault _ => true
+  end.
+
+(* REGSTREAM: (variant sto regdefs records), record = (idx data): write every record with its own type, then
+   read the concatenation back with the same types in the same order, as Register.write / Register.read do.
+   result: per record (chunk, consumed, data, position after the read, matches?) *)
+Fixpoint read_stream (fr : bool) (sto : storage) (rs : list regdef) (recs : list (nat * list value)) (s : str) (pos : nat) : list sx :=
+  match recs with
+  | [] => []
+  | (i, _) :: r =>
+      let rd := nth_reg rs i in
+      let (c, rest) := reg_consume fr sto rd s in
+      L [Sstr c; Svals (reg_data sto rd c); Snat (pos + length c)] :: read_stream fr sto rs r rest (pos + length c)
+  end.
+Definition run_regstream (arg : sx) : sx :=
+  let fr := negb (Z.odd (sxZ (sxnth 0 arg))) in
+  let sto := dec_sto (sxnth 1 arg) in
+  let rs := map dec_regdef (sxL (sxnth 2 arg)) in
+  let recs := map (fun r => (sxnat (sxnth 0 r), dec_vals (sxnth 1 r))) (sxL (sxnth 3 arg)) in
+  let chunks := map (fun r => write_elem sto rs (ETyped (fst r) (snd r))) recs in
+  let all := fold_right (fun c acc => match c, acc with Some a, Some b => Some (a ++ b) | _, _ => None end) (Some []) chunks in
+  match all with
+  | None => L [L []]
+  | Some text =>
+      L [ L (map Sostr chunks);
+          L (map (fun rc => SB (reg_matches (nth_reg rs (fst (fst rc))) (match snd rc with Some c => c | None => [] end)))
+                 (combine recs chunks));
+          L (read_stream fr sto rs recs text 0);
+          L (map (fun r => SB (elem_fits sto rs (ETyped (fst r) (snd r)))) recs) ]
+  end.
+
 (* REGFILE: (variant sto linesize regdefs mode payload)
      mode 0, payload = content x : (R x, tell positions, y = W (R x), W (R y))
      mode 1, payload = elements D: (W D, R (W D), tell positions)
@@ -46,22 +95,27 @@ Definition run_regfile (arg : sx) : sx :=
   let payload := sxnth 5 arg in
   let Sel := fun o : option (list elem) => match o with Some es => L (map Selem es) | None => OUT_OF_FUEL end in
   let Spos := fun o : option (list nat) => match o with Some ps => L (map Snat ps) | None => OUT_OF_FUEL end in
-  match sxZ (sxnth 4 arg) with
-  | 0%Z =>
-      let x := sxS payload in
+  let mode := sxZ (sxnth 4 arg) in
+  let xo := if (mode =? 2)%Z then W sto rs (map dec_elem (sxL payload)) else Some (sxS payload) in
+  match mode with
+  | 0%Z | 2%Z =>
+      let x := match xo with Some t => t | None => [] end in
       let rx := R fr fd sto ls rs x in
       let y := match rx with Some es => W sto rs es | None => None end in
       let y2 := match y with
                 | Some yt => match R fr fd sto ls rs yt with Some es => W sto rs es | None => None end
                 | None => None
                 end in
-      L [Sel rx; Spos (positions fr fd sto ls rs x); Sostr y; Sostr y2]
+      L [Sel rx; Spos (positions fr fd sto ls rs x); Sostr y; Sostr y2;
+         SB (match rx, xo with Some es, Some _ => forallb (elem_fits sto rs) es | _, _ => false end
+             && (if (mode =? 2)%Z then forallb (elem_fits sto rs) (map dec_elem (sxL payload)) else true)); Sstr x]
   | _ =>
       let d := map dec_elem (sxL payload) in
       let t := W sto rs d in
       match t with
-      | Some txt => L [Sostr t; Sel (R fr fd sto ls rs txt); Spos (positions fr fd sto ls rs txt)]
-      | None => L [L []; L []; L []]
+      | Some txt => L [Sostr t; Sel (R fr fd sto ls rs txt); Spos (positions fr fd sto ls rs txt);
+                       SB (forallb (elem_fits sto rs) d)]
+      | None => L [L []; L []; L []; SB false]
       end
   end.
 
